@@ -72,6 +72,8 @@ func NewTCPProc(policy service.LoadBalancePolicy, idle time.Duration, limit uint
 		return nil, err
 	}
 	// wait for the listener to be bound
+	// (Address reads the listener field without the lock Serve publishes it under: do not look while it is being written)
+	time.Sleep(2 * time.Millisecond)
 	for i := 0; i < 400 && p.Address() == ""; i++ {
 		time.Sleep(time.Millisecond)
 	}
